@@ -48,6 +48,9 @@ def run(rep, kf, tier, seed):
     import contracts.model_plumbing as cmp_
     from pyvc import engine_b as _eb2
     _eb2.discharge(rep, kf, [cmp_.const_build_contract()], "C13", tier, seed)
+    import contracts.union_convert as cuc
+    from pyvc import engine_b as _eb3
+    _eb3.discharge(rep, kf, [cuc.convert_contract()], "C13", tier, seed)
     import contracts.scalar_build as csb
     from pyvc import engine_b as _eb
     _eb.discharge(rep, kf, csb.all_contracts(), "C13", tier, seed)
